@@ -18,7 +18,10 @@ extract_reqs, loop bound of req_commit) and runs the model with that variant; an
 
 TIE: correspondence.  Random and directed histories of iput/iget/bput (all forms incl. varn, multi-record, typed and
 flexible with vector buffers, imap; a profile of interleaving requests strided in a slow dimension, so that the
-flatten/sort/merge path vars_flatten + merge_requests is exercised with count >= 3) and wait/wait_all/cancel (all at once, by kind, subsets, permuted, NULL and duplicated
+flatten/sort/merge path vars_flatten + merge_requests is exercised with count >= 3; a "wide pitch" profile: CDF-5 2-D
+variables with rows 4 GiB / 3 GiB apart in a sparse file, columns posted in descending order, so that the segments
+merge_requests sorts are >= 2^31 bytes apart - the theorems are over Z, i.e. hold for offsets of any magnitude as long as
+qsort's comparator orders them (cmp_trunc32_orders_refuted: a 32-bit truncated difference does not)) and wait/wait_all/cancel (all at once, by kind, subsets, permuted, NULL and duplicated
 ids, different request counts per process, collective and independent) run on the real library through
 harness/pnc_impl.c and on the model through coq/NbRun.v (Eval vm_compute); compared: request ids, return codes, statuses,
 ids after the call, inq_nreqs, numrecs, read buffers and put buffers incl. guard zones, file bytes of written elements.
@@ -36,8 +39,8 @@ ASSUMPTIONS = [
     'never-written bytes are undefined and never compared',
 ]
 
-MIX_QUICK = [('mixed', 140, {}), ('strided', 30, {'profile': 'strided'}), ('abuf', 30, {'profile': 'abuf'}), ('big', 5, {'big': True})]
-MIX_THOROUGH = [('mixed', 2400, {}), ('strided', 400, {'profile': 'strided'}), ('abuf', 500, {'profile': 'abuf'}), ('big', 60, {'big': True})]
+MIX_QUICK = [('mixed', 140, {}), ('wide', 6, {'profile': 'wide'}), ('strided', 30, {'profile': 'strided'}), ('abuf', 30, {'profile': 'abuf'}), ('big', 5, {'big': True})]
+MIX_THOROUGH = [('mixed', 2400, {}), ('wide', 60, {'profile': 'wide'}), ('strided', 400, {'profile': 'strided'}), ('abuf', 500, {'profile': 'abuf'}), ('big', 60, {'big': True})]
 
 
 def run(ctx):
